@@ -83,7 +83,9 @@ def e2_functions():
 
 
 def base_rels(pairs=None):
-    pairs = pairs or ((X, P), (X, L.num("0")), (P, L.num("1")), (L.bin_("+", X, P), T))
+    pairs = pairs or ((X, P), (X, L.num("0")), (P, L.num("1")), (L.bin_("+", X, P), T),
+                      # float-typed literals on either side (printers may treat Float and Integer differently)
+                      (X, L.num("0.5")), (L.num("1.0"), P), (X, L.num("0.0")), (T, L.num("-0.5")), (L.bin_("*", X, L.num("2.0")), L.num("1e0")))
     return [L.rel(op, a, b) for op in L.RELS for a, b in pairs]
 
 
